@@ -161,3 +161,55 @@ def mine_with_real_miner(sn, world, rng, max_tries=20000):
             world.accept(rb, cand, cs=world.cs)
             return cand
     return None
+
+
+def rebuild_through_store(world, rng, tag):
+    """what a restarted node has: the world's blocks are written to a NEW file-backed block store (created by the code under
+    test) in random batches, the store is re-opened and the chain state rebuilt by the repository's own loader.  Returns the
+    rebuilt state, or None when the world contains a transaction id in two blocks (the listed C08 finding) or the store
+    refuses"""
+    import io
+    import sys
+    import skepticoin.blockstore as bs
+    import skepticoin.scripts.utils as su
+    from skepticoin.blockstore import BlockStore
+    order = world.chain.order[1:]
+    owners = {}
+    for b in order:
+        for t in world.chain.blocks[b].txs:
+            owners.setdefault(t.id(), set()).add(b)
+    if any(len(v) > 1 for v in owners.values()):
+        return None
+    path = os.path.join(os.getcwd(), "rebuild-%s.db" % tag)
+    for suffix in ("", "-journal"):
+        if os.path.exists(path + suffix):
+            os.remove(path + suffix)
+    out = sys.stdout
+    sys.stdout = io.StringIO()
+    try:
+        store = BlockStore(path)
+        try:
+            k = 0
+            while k < len(order):
+                step = rng.choice([1, 2, 5, len(order)])
+                for b in order[k:k + step]:
+                    store.add_block_to_buffer(world.real[b])
+                store.flush_blocks_to_disk()
+                k += step
+        except Exception:
+            store.close()
+            return None
+        store.close()
+        store = BlockStore(path)
+        old = bs.DefaultBlockStore.instance
+        bs.DefaultBlockStore.instance = store
+        try:
+            return su.read_chain_from_disk()
+        finally:
+            bs.DefaultBlockStore.instance = old
+            store.close()
+    finally:
+        sys.stdout = out
+        for suffix in ("", "-journal"):
+            if os.path.exists(path + suffix):
+                os.remove(path + suffix)
